@@ -43,15 +43,14 @@ void harness(void)
     C19_NAME(n10, c10);
     C19_NAME(n11, c11);
     __CPROVER_assume(0 <= ntab && ntab <= 2 && 0 <= na && na <= 2 && 0 <= nb && nb <= 2);
-    struct mshell_command ta[3], tb[3];
-    ta[0] = (struct mshell_command){n00, c19_mh_1, NULL};
-    ta[1] = (struct mshell_command){n01, c19_mh_1, NULL};
-    ta[2] = (struct mshell_command){NULL, NULL, NULL};
-    ta[na] = (struct mshell_command){NULL, NULL, NULL};
-    tb[0] = (struct mshell_command){n10, c19_mh_2, NULL};
-    tb[1] = (struct mshell_command){n11, c19_mh_2, NULL};
-    tb[2] = (struct mshell_command){NULL, NULL, NULL};
-    tb[nb] = (struct mshell_command){NULL, NULL, NULL};
+    /* exact-size tables (NA / NB commands + sentinel): stepping over the sentinel leaves the object */
+    struct mshell_command ta[NA + 1], tb[NB + 1];
+    if (NA >= 1) ta[0] = (struct mshell_command){n00, c19_mh_1, NULL};
+    if (NA >= 2) ta[1] = (struct mshell_command){n01, c19_mh_1, NULL};
+    ta[NA] = (struct mshell_command){NULL, NULL, NULL};
+    if (NB >= 1) tb[0] = (struct mshell_command){n10, c19_mh_2, NULL};
+    if (NB >= 2) tb[1] = (struct mshell_command){n11, c19_mh_2, NULL};
+    tb[NB] = (struct mshell_command){NULL, NULL, NULL};
     const struct mshell_command *tables[3] = {ta, tb, NULL};
     tables[ntab] = NULL;
     C19_GHOST_RESET();
